@@ -278,6 +278,19 @@ mk('arr_2d', ['i%', 'j%', 'v&'],
       ('idx', 'm&', [I(1), I(-1)]), ';', ('idx', 'm&', [I(1), I(0)]))],
    head=[('dim', 'dim', [('m&', [(I(0), I(1)), (I(-1), I(0))], None)])],
    family='array')
+mk('arr_3d', ['i%', 'j%', 'k%', 'v%'],
+   [L(('idx', 'c%', [I(1), I(0), I(2)]), I(102)),
+    L(('idx', 'c%', [I(0), I(1), I(2)]), I(12)),
+    L(('idx', 'c%', [I(1), I(1), I(1)]), I(111)),
+    L(('idx', 'c%', [var('i%'), var('j%'), var('k%')]), var('v%')),
+    P(('idx', 'c%', [I(1), I(0), I(2)]), ';',
+      ('idx', 'c%', [I(0), I(1), I(2)]), ';',
+      ('idx', 'c%', [I(1), I(1), I(1)]), ';',
+      ('idx', 'c%', [I(0), I(0), I(1)]), ';',
+      ('idx', 'c%', [I(1), I(1), I(2)]))],
+   head=[('dim', 'dim', [('c%', [(I(0), I(1)), (I(0), I(1)), (I(1), I(2))],
+                          None)])],
+   family='array')
 mk('arr_bounds_fn', ['d%'],
    [P(F('LBOUND', ('arrname', 'm&'), var('d%')), ';',
       F('UBOUND', ('arrname', 'm&'), var('d%')))],
